@@ -4,6 +4,7 @@ import (
 	"fmt"
 	"go/token"
 	"go/types"
+	"strings"
 
 	"golang.org/x/tools/go/ssa"
 )
@@ -327,7 +328,7 @@ func checkC17(r *Run) {
 				return
 			}
 			want := fa.linSym(lenOf(pfin), 0)
-			got := fa.Lin(st.Val)
+			got := fa.LinMod(st.Val, 64) // the offset is advanced in int64 arithmetic: the relation is exact modulo 2^64
 			// got - want must be exactly one load of rd.offset at the entry version
 			d := got.Sub(want)
 			if d.C == 0 && len(d.T) == 1 {
@@ -518,7 +519,7 @@ func c17ClientNext(r *Run) {
 		if !ok || f.X != ssa.Value(recv) || fieldName(f.X.Type(), f.Field) != "nread" {
 			return
 		}
-		d := fa.Lin(st.Val).Sub(fa.Lin(n))
+		d := fa.LinMod(st.Val, 64).Sub(fa.LinMod(n, 64))
 		if d.C == 0 && len(d.T) == 1 {
 			for k, c := range d.T {
 				if c == 1 && d.Atoms[k].Op == "ld" && d.Atoms[k].Aux == "F:p9p.openDir.nread" {
@@ -528,6 +529,54 @@ func c17ClientNext(r *Run) {
 		}
 	})
 	r.Check(okAdv, "client-next", "openDir.Next: the running offset advances by the bytes received", rdc.Pos(), "the client's offset does not advance by n: the server refuses the next read or entries repeat")
+	// the listing is declared finished only on evidence of its end: the read reported EOF, returned no bytes, or
+	// yielded no entry — never because a chunk was merely shorter than the buffer (the server sends whole entries
+	// only, so almost every chunk is short)
+	nDone := 0
+	eachInstr(nx, func(in ssa.Instruction) {
+		st, ok := in.(*ssa.Store)
+		if !ok {
+			return
+		}
+		f, ok := st.Addr.(*ssa.FieldAddr)
+		if !ok || f.X != ssa.Value(recv) || fieldName(f.X.Type(), f.Field) != "done" {
+			return
+		}
+		if c, isC := st.Val.(*ssa.Const); !isC || c.Value == nil || c.Value.String() != "true" {
+			r.Bad("client-next", "openDir.Next: done is only ever set to true", st.Pos(), "the end-of-listing flag is set from a computed value")
+			return
+		}
+		nDone++
+		okEnd := false
+		for _, cd := range condsAtInstr(st) {
+			nc := normCond(cd)
+			b, isB := nc.V.(*ssa.BinOp)
+			if !isB || b.Op != token.EQL || !nc.Truth {
+				continue
+			}
+			for _, side := range []ssa.Value{b.X, b.Y} {
+				if u, isU := side.(*ssa.UnOp); isU && u.Op == token.MUL {
+					if g, isG := u.X.(*ssa.Global); isG && g.Name() == "EOF" {
+						okEnd = true
+					}
+				}
+			}
+		}
+		facts := fa.FactsAt(st, fa.Lin(n))
+		if Entails(facts, fa.Lin(n)) { // n <= 0
+			okEnd = true
+		}
+		for _, fct := range facts {
+			for _, a := range fct.L.Atoms {
+				if a.Op == "len" && len(a.Args) == 1 && strings.Contains(shortType(a.Args[0].T), "[]p9p.Dir") && Entails(facts, linAtom(a)) {
+					okEnd = true // no entry was decoded from this chunk
+				}
+			}
+		}
+		r.Check(okEnd, "client-next", "openDir.Next: the listing is marked finished only on EOF, an empty read or an empty batch", st.Pos(),
+			"the client stops listing on a condition that does not mean end-of-directory (e.g. a short chunk): the remaining entries are silently dropped")
+	})
+	r.Floor("client-next", nDone, 1, "stores to openDir.done")
 	// decodes exactly buf[:n]
 	okSl := false
 	for _, c := range findCalls(nx, "bytes.NewReader") {
